@@ -158,10 +158,13 @@ func New(startTime time.Time, logLevel slog.Level) *Handler {
 	// Galileo keeps GPS time.
 	startOfGalileoWeek := startOfGPSWeek
 
-	// Set the stored timestamps to match the start time.
-	timestampFromPreviousGPSMessage := (uint(startTime.Sub(startOfGPSWeek).Milliseconds()))
-	timestampFromPreviousGalileoMessage := timestampFromPreviousGPSMessage
-	timestampFromPreviousBeidouMessage := (uint(startTime.Sub(startOfBeidouWeek).Milliseconds()))
+	// The start time only identifies the week of the first observation, which
+	// may be earlier or later in that week than the start time.  So the stored
+	// timestamps start at zero (as the stored Glonass day does): the first
+	// message is never taken for a rollover.
+	var timestampFromPreviousGPSMessage uint
+	var timestampFromPreviousGalileoMessage uint
+	var timestampFromPreviousBeidouMessage uint
 
 	handler := Handler{
 		startOfGPSWeek:                      startOfGPSWeek,
